@@ -2,15 +2,18 @@ package main
 
 import (
 	"bytes"
-	"io"
-	"testing/iotest"
 	stdjson "encoding/json"
 	"fmt"
+	"io"
 	"math/big"
+	"os"
 	"reflect"
 	"regexp"
+	"runtime"
 	"strconv"
 	"strings"
+	"sync"
+	"testing/iotest"
 
 	gojson "github.com/goccy/go-json"
 )
@@ -209,8 +212,16 @@ func c16Decode(o *Out, k intKind, lit string, toModel bool) {
 	}
 }
 
-// positions other than plain: the literal inside a slice, a struct field, a
-// pointer field, a map key and a ,string field; compared with encoding/json.
+// positions other than plain: the literal inside a slice, an array, a struct field, a
+// pointer field, a map key, a map value and a ,string field (plain and pointer);
+// compared with encoding/json, in buffer mode and through the Decoder (whole
+// reader and one byte at a time: wrappedStringDecoder, mapKeyIntDecoder and the
+// container decoders have a stream twin each).
+var c16PosModes = []struct {
+	name string
+	f    func([]byte, interface{}) error
+}{{"Unmarshal", gojson.Unmarshal}, {"Decoder", streamUnmarshal(false)}, {"Decoder/1-byte reader", streamUnmarshal(true)}}
+
 func c16DecodePositions(o *Out, k intKind, lit string) {
 	st := reflect.StructOf([]reflect.StructField{
 		{Name: "A", Type: k.typ, Tag: `json:"a"`},
@@ -218,6 +229,9 @@ func c16DecodePositions(o *Out, k intKind, lit string) {
 		{Name: "S", Type: k.typ, Tag: `json:"s,string"`},
 		{Name: "L", Type: reflect.SliceOf(k.typ), Tag: `json:"l"`},
 		{Name: "M", Type: reflect.MapOf(k.typ, reflect.TypeOf(0)), Tag: `json:"m"`},
+		{Name: "PS", Type: reflect.PtrTo(k.typ), Tag: `json:"ps,string"`},
+		{Name: "V", Type: reflect.MapOf(reflect.TypeOf(""), k.typ), Tag: `json:"v"`},
+		{Name: "R", Type: reflect.ArrayOf(2, k.typ), Tag: `json:"r"`},
 	})
 	docs := []struct{ pos, doc string }{
 		{"field", `{"a":` + lit + `}`},
@@ -225,38 +239,51 @@ func c16DecodePositions(o *Out, k intKind, lit string) {
 		{"stringtag", `{"s":"` + lit + `"}`},
 		{"slice", `{"l":[` + lit + `,1]}`},
 		{"mapkey", `{"m":{"` + lit + `":1}}`},
+		{"ptrstringtag", `{"ps":"` + lit + `"}`},
+		{"mapvalue", `{"v":{"x":` + lit + `,"y":1}}`},
+		{"array", `{"r":[1,` + lit + `]}`},
 	}
 	for _, d := range docs {
 		if !stdjson.Valid([]byte(d.doc)) {
 			continue // C05 decides acceptance of invalid documents
 		}
-		gv := reflect.New(st)
 		wv := reflect.New(st)
-		gerr := safeUnmarshal(gojson.Unmarshal, []byte(d.doc), gv.Interface())
 		werr := stdjson.Unmarshal([]byte(d.doc), wv.Interface())
-		o.count("decode_position_cases", 1)
-		gs, _ := stdjson.Marshal(gv.Interface())
 		ws, _ := stdjson.Marshal(wv.Interface())
-		if (gerr != nil) != (werr != nil) || (gerr == nil && string(gs) != string(ws)) {
-			quoted := d.pos == "stringtag" || d.pos == "mapkey"
-			// encoding/json converts quoted numbers with strconv and so accepts
-			// "01" and "+1"; C16 demands an error for anything that is not a
-			// JSON integer, so the stricter verdict is the right one.
-			if quoted && !jsonIntRe.MatchString(lit) && gerr != nil && werr == nil {
-				o.count("quoted_nonjson_rejected_std_lenient", 1)
-				continue
+		for mi, mode := range c16PosModes {
+			gv := reflect.New(st)
+			gerr := safeUnmarshal(mode.f, []byte(d.doc), gv.Interface())
+			if mi == 0 {
+				o.count("decode_position_cases", 1)
+			} else {
+				o.count("stream_decode_position_cases", 1)
 			}
-			// frozen class of a recorded finding: the map key "null"
-			if d.pos == "mapkey" && lit == "null" && gerr == nil && werr != nil {
-				o.known("MapKeyNullAccepted", d.doc)
-				continue
+			gs, _ := stdjson.Marshal(gv.Interface())
+			if (gerr != nil) != (werr != nil) || (gerr == nil && string(gs) != string(ws)) {
+				quoted := d.pos == "stringtag" || d.pos == "mapkey" || d.pos == "ptrstringtag"
+				// encoding/json converts quoted numbers with strconv and so accepts
+				// "01" and "+1"; C16 demands an error for anything that is not a
+				// JSON integer, so the stricter verdict is the right one.
+				if quoted && !jsonIntRe.MatchString(lit) && gerr != nil && werr == nil {
+					o.count("quoted_nonjson_rejected_std_lenient", 1)
+					continue
+				}
+				// frozen class of a recorded finding: the map key "null"
+				if d.pos == "mapkey" && lit == "null" && gerr == nil && werr != nil {
+					o.known("MapKeyNullAccepted", d.doc)
+					continue
+				}
+				o.violation("C16", "integer literal decoded differently from encoding/json",
+					map[string]string{"kind": k.name, "position": d.pos, "mode": mode.name, "doc": d.doc,
+						"impl": fmt.Sprintf("err=%v %s", gerr, gs), "oracle": fmt.Sprintf("err=%v %s", werr, ws)})
+			} else if gerr != nil && string(gs) != string(ws) {
+				if mi == 0 {
+					// both fail: a differing partial store is the PartialStoreBeforeError finding
+					o.known("PartialStoreBeforeError", d.doc)
+				} else {
+					o.hist("stream_both_fail_store_differs", d.pos)
+				}
 			}
-			o.violation("C16", "integer literal decoded differently from encoding/json",
-				map[string]string{"kind": k.name, "position": d.pos, "doc": d.doc,
-					"impl": fmt.Sprintf("err=%v %s", gerr, gs), "oracle": fmt.Sprintf("err=%v %s", werr, ws)})
-		} else if gerr != nil && string(gs) != string(ws) {
-			// both fail: a differing partial store is the PartialStoreBeforeError finding
-			o.known("PartialStoreBeforeError", d.doc)
 		}
 	}
 }
@@ -384,4 +411,541 @@ func runC16(o *Out) {
 		}
 	}
 	o.Notes = append(o.Notes, fmt.Sprintf("literals=%d kinds=%d radius=%d", len(lits), len(intKinds), radius))
+	// ---- audit wave 6 strata (after the older ones, whose random inputs stay what they were) ----
+	for _, k := range intKinds {
+		c16StructMatrix(o, k)
+		c16Containers(o, k)
+	}
+	c16DecodeDense(o)
+	for _, k := range intKinds {
+		c16StreamSequences(o, k)
+	}
+	if thorough {
+		c16Exhaustive32(o)
+	}
+}
+
+// ---------------------------------------------------------------------------
+// audit wave 6: additional strata (see the notes of audit A6)
+// ---------------------------------------------------------------------------
+
+// c16Boundary returns the values of kind k (as bit patterns) at which a printer
+// or a zero test keyed by a width mask can go wrong: 0, +-1, the one/two/three
+// digit steps, the extremes, and values whose low 8/16/32 bits are all zero.
+func c16Boundary(k intKind) []uint64 {
+	mask := ^uint64(0)
+	if k.bits < 64 {
+		mask = 1<<uint(k.bits) - 1
+	}
+	seen := map[uint64]bool{}
+	var out []uint64
+	add := func(p uint64) {
+		p &= mask
+		if !seen[p] {
+			seen[p] = true
+			out = append(out, p)
+		}
+	}
+	for _, p := range []uint64{0, 1, 9, 10, 99, 100, 101, 127, 128, 255, 256, 999, 1000, 32767, 32768, 65535, 65536,
+		1 << 31, 1<<31 - 1, 1 << 32, 1<<32 - 1, 1 << 40, 1 << 48, 1 << 56, 1 << 63, 1<<63 - 1, 1<<64 - 1,
+		9999999999, 10000000000, 999999999999999999, 1000000000000000000, 9999999999999999999, 10000000000000000000} {
+		add(p)
+		add(-p) // the negative of it (signed kinds), resp. the two's complement (unsigned kinds)
+	}
+	add(uint64(1) << uint(k.bits-1))   // minimum of a signed kind
+	add(uint64(1)<<uint(k.bits-1) - 1) // maximum of a signed kind
+	add(mask)
+	return out
+}
+
+// field modifiers of the struct matrix
+type c16Mod struct {
+	name string
+	ptr  bool
+	tag  string // options after the name
+	nilp bool
+}
+
+var c16Mods = []c16Mod{
+	{"plain", false, "", false}, {"omitempty", false, ",omitempty", false}, {"string", false, ",string", false},
+	{"omitempty+string", false, ",omitempty,string", false},
+	{"ptr", true, "", false}, {"ptr+omitempty", true, ",omitempty", false}, {"ptr+string", true, ",string", false},
+	{"nilptr", true, "", true}, {"nilptr+omitempty", true, ",omitempty", true}, {"nilptr+string", true, ",string", true},
+}
+
+func c16StructOf(k intKind, layout []int) reflect.Type {
+	fs := make([]reflect.StructField, len(layout))
+	for i, m := range layout {
+		t := k.typ
+		if c16Mods[m].ptr {
+			t = reflect.PtrTo(t)
+		}
+		fs[i] = reflect.StructField{Name: fmt.Sprintf("F%d", i), Type: t,
+			Tag: reflect.StructTag(fmt.Sprintf(`json:"f%d%s"`, i, c16Mods[m].tag))}
+	}
+	return reflect.StructOf(fs)
+}
+
+func c16LayoutName(layout []int) string {
+	var s []string
+	for _, m := range layout {
+		s = append(s, c16Mods[m].name)
+	}
+	return strings.Join(s, " | ")
+}
+
+type c16Encoder struct {
+	name string
+	goj  func(v interface{}) ([]byte, error)
+	std  func(v interface{}) ([]byte, error)
+}
+
+var c16Encoders = []c16Encoder{
+	{"Marshal", func(v interface{}) ([]byte, error) { return gojson.Marshal(v) }, stdjson.Marshal},
+	{"MarshalIndent", func(v interface{}) ([]byte, error) { return gojson.MarshalIndent(v, "", " ") },
+		func(v interface{}) ([]byte, error) { return stdjson.MarshalIndent(v, "", " ") }},
+	{"Colorize", func(v interface{}) ([]byte, error) {
+		b, err := gojson.MarshalWithOption(v, gojson.Colorize(c13Scheme()))
+		return c13StripMarkers(b), err
+	}, stdjson.Marshal},
+	{"Colorize+Indent", func(v interface{}) ([]byte, error) {
+		b, err := gojson.MarshalIndentWithOption(v, "", " ", gojson.Colorize(c13Scheme()))
+		return c13StripMarkers(b), err
+	}, func(v interface{}) ([]byte, error) { return stdjson.MarshalIndent(v, "", " ") }},
+	{"Encoder", func(v interface{}) ([]byte, error) {
+		var b bytes.Buffer
+		err := gojson.NewEncoder(&b).Encode(v)
+		return b.Bytes(), err
+	}, func(v interface{}) ([]byte, error) {
+		var b bytes.Buffer
+		err := stdjson.NewEncoder(&b).Encode(v)
+		return b.Bytes(), err
+	}},
+}
+
+// c16EncodeAll runs every encoder twin (compact, indent, the two colour VMs, the
+// stream encoder) on x and compares with encoding/json.
+func c16EncodeAll(o *Out, counter, what string, detail map[string]string, x interface{}) {
+	for _, e := range c16Encoders {
+		g, gerr := c01Safe(func() ([]byte, error) { return e.goj(x) })
+		w, werr := e.std(x)
+		o.count(counter, 1)
+		if (gerr != nil) != (werr != nil) || !bytes.Equal(g, w) {
+			d := map[string]string{"encoder": e.name, "impl": fmt.Sprintf("%q err=%v", g, gerr), "oracle": fmt.Sprintf("%q err=%v", w, werr)}
+			for k, v := range detail {
+				d[k] = v
+			}
+			o.violation("C16", what, d)
+		}
+	}
+}
+
+// c16StructMatrix: an integer as first, inner, last and only member of a struct, under
+// every combination of omitempty / string / pointer / nil pointer, the struct given by
+// value and by pointer, through the five encoder twins.  The opcodes differ for each
+// of these (Head/Field/End x Int/IntPtr/IntString/OmitEmptyInt...) in each of the VMs.
+func c16StructMatrix(o *Out, k intKind) {
+	var layouts [][]int
+	for m := range c16Mods {
+		layouts = append(layouts, []int{m, m, m})
+		if !c16Mods[m].ptr {
+			// a struct whose only member is a pointer is stored as that pointer: the
+			// recorded family PointerShapedAggregate of C01, not an integer matter
+			layouts = append(layouts, []int{m})
+		}
+	}
+	layouts = append(layouts, []int{0, 1, 2}, []int{1, 2, 3}, []int{2, 4, 1}, []int{5, 0, 6}, []int{3, 8, 0}, []int{9, 1, 4},
+		[]int{1, 1, 0}, []int{0, 1, 1}, []int{1, 8, 1}, []int{8, 8, 0}, []int{0, 8, 8}, []int{3, 3, 1}, []int{7, 9, 7}, []int{6, 3, 5})
+	nrand := 12
+	if o.tier == "thorough" {
+		nrand = 200
+	}
+	for i := 0; i < nrand; i++ {
+		n := 2 + o.rng.Intn(4)
+		l := make([]int, n)
+		for j := range l {
+			l[j] = o.rng.Intn(len(c16Mods))
+		}
+		layouts = append(layouts, l)
+	}
+	vals := c16Boundary(k)
+	for li, layout := range layouts {
+		st := c16StructOf(k, layout)
+		o.hist("struct_matrix_fields", strconv.Itoa(len(layout)))
+		for vi := range vals {
+			if o.tier != "thorough" && li >= 2*len(c16Mods)-3 && vi%3 != li%3 {
+				continue // the mixed layouts take every third value in the quick tier
+			}
+			sv := reflect.New(st)
+			var shown []string
+			for fi, m := range layout {
+				// neighbouring members hold different values; the zero value comes up in every position
+				p := vals[(vi+fi*7)%len(vals)]
+				if fi > 0 && (vi+fi)%5 == 0 {
+					p = 0
+				}
+				f := sv.Elem().Field(fi)
+				if c16Mods[m].ptr {
+					if c16Mods[m].nilp {
+						shown = append(shown, "nil")
+						continue
+					}
+					f.Set(reflect.New(k.typ))
+					f = f.Elem()
+				}
+				setPattern(k, f, p)
+				shown = append(shown, oracleText(k, f))
+				o.hist("struct_matrix_modifier", c16Mods[m].name)
+			}
+			det := map[string]string{"kind": k.name, "layout": c16LayoutName(layout), "values": strings.Join(shown, ",")}
+			det["outer"] = "value"
+			c16EncodeAll(o, "struct_matrix_cases", "integer member printed differently from encoding/json", det, sv.Elem().Interface())
+			det["outer"] = "pointer"
+			c16EncodeAll(o, "struct_matrix_cases", "integer member printed differently from encoding/json", det, sv.Interface())
+		}
+	}
+}
+
+// named integer types: the compilers go by kind, the reflect-made types above are all unnamed
+type (
+	c16NI8   int8
+	c16NI16  int16
+	c16NI32  int32
+	c16NI64  int64
+	c16NI    int
+	c16NU8   uint8
+	c16NU16  uint16
+	c16NU32  uint32
+	c16NU64  uint64
+	c16NU    uint
+	c16NUPtr uintptr
+)
+
+var c16Named = map[string]reflect.Type{
+	"int8": reflect.TypeOf(c16NI8(0)), "int16": reflect.TypeOf(c16NI16(0)), "int32": reflect.TypeOf(c16NI32(0)),
+	"int64": reflect.TypeOf(c16NI64(0)), "int": reflect.TypeOf(c16NI(0)),
+	"uint8": reflect.TypeOf(c16NU8(0)), "uint16": reflect.TypeOf(c16NU16(0)), "uint32": reflect.TypeOf(c16NU32(0)),
+	"uint64": reflect.TypeOf(c16NU64(0)), "uint": reflect.TypeOf(c16NU(0)), "uintptr": reflect.TypeOf(c16NUPtr(0)),
+}
+
+// c16Containers: maps with several integer keys (the members are ordered by the key
+// texts, so a negative key, keys of different digit counts and the extremes must all be
+// printed before sorting), integers as map values, array elements and inside
+// interface{}, and the same for a named type of the kind.
+func c16Containers(o *Out, k intKind) {
+	vals := c16Boundary(k)
+	rounds := 40
+	if o.tier == "thorough" {
+		rounds = 2000
+	}
+	for _, kk := range []intKind{k, {k.name, k.bits, k.signed, c16Named[k.name]}} {
+		named := kk.typ != k.typ
+		for r := 0; r < rounds; r++ {
+			n := 2 + o.rng.Intn(7)
+			mk := reflect.MakeMap(reflect.MapOf(kk.typ, kk.typ))
+			ms := reflect.MakeMap(reflect.MapOf(reflect.TypeOf(""), kk.typ))
+			arr := reflect.New(reflect.ArrayOf(3, kk.typ)).Elem()
+			var ifs []interface{}
+			var shown []string
+			for i := 0; i < n; i++ {
+				var p uint64
+				if o.rng.Intn(3) == 0 {
+					p = o.rng.Uint64() >> uint(o.rng.Intn(64))
+				} else {
+					p = vals[o.rng.Intn(len(vals))]
+				}
+				v := reflect.New(kk.typ).Elem()
+				setPattern(kk, v, p)
+				mk.SetMapIndex(v, v)
+				ms.SetMapIndex(reflect.ValueOf(fmt.Sprintf("k%d", i)), v)
+				arr.Index(i % 3).Set(v)
+				ifs = append(ifs, v.Interface())
+				shown = append(shown, oracleText(kk, v))
+			}
+			o.hist("container_map_keys", strconv.Itoa(mk.Len()))
+			det := map[string]string{"kind": k.name, "named": fmt.Sprint(named), "values": strings.Join(shown, ",")}
+			type wrap struct {
+				M interface{} `json:"m"`
+				A interface{} `json:"a,omitempty"`
+			}
+			for i, x := range []interface{}{mk.Interface(), ms.Interface(), arr.Interface(), ifs, wrap{mk.Interface(), ifs[0]}} {
+				det["container"] = []string{"map[K]K", "map[string]K", "[3]K", "[]interface{}", "struct{interface{}}"}[i]
+				c16EncodeAll(o, "container_cases", "integers in a container printed differently from encoding/json", det, x)
+			}
+		}
+	}
+}
+
+// c16DecodeDense: every literal within +-radius of each width boundary, with both
+// signs, and 19/20 digit literals on both sides of the 64-bit limits, in buffer mode
+// and through the Decoder.  The literals are pure digit strings, so encoding/json's
+// verdict and value are binding (no partial store can occur).
+func c16DecodeDense(o *Out) {
+	radius := int64(40)
+	nrand := 400
+	if o.tier == "thorough" {
+		radius, nrand = 3000, 40000
+	}
+	var lits []string
+	for _, b := range []uint{7, 8, 15, 16, 31, 32, 63, 64} {
+		x := new(big.Int).Lsh(big.NewInt(1), b)
+		for d := -radius; d <= radius; d++ {
+			y := new(big.Int).Add(x, big.NewInt(d)).String()
+			lits = append(lits, y, "-"+y)
+		}
+	}
+	// 19 and 20 digit literals: in range, out of range with a sum that wraps to something small or plausible
+	for i := 0; i < nrand; i++ {
+		var sb strings.Builder
+		if o.rng.Intn(3) == 0 {
+			sb.WriteByte('-')
+		}
+		n := 19 + o.rng.Intn(2)
+		digits := []string{"1", "9", "18446744073709" + []string{"5", "6", "4"}[o.rng.Intn(3)],
+			"92233720368" + []string{"5", "4", "6"}[o.rng.Intn(3)]}[o.rng.Intn(4)]
+		if digits[0] == '9' && len(digits) > 1 {
+			n = 19
+		}
+		for len(digits) < n {
+			digits += string(byte('0' + o.rng.Intn(10)))
+		}
+		lits = append(lits, sb.String()+digits)
+	}
+	// multiples of 2^64 and 2^32 above the range: the truncated sum is 0 or small
+	for _, m := range []int64{1, 2, 3, 5} {
+		for _, b := range []uint{8, 16, 32, 64} {
+			y := new(big.Int).Mul(new(big.Int).Lsh(big.NewInt(1), b), big.NewInt(m))
+			for _, d := range []int64{0, 1, 7} {
+				z := new(big.Int).Add(y, big.NewInt(d)).String()
+				lits = append(lits, z, "-"+z)
+			}
+		}
+	}
+	modes := []struct {
+		name string
+		f    func([]byte, interface{}) error
+	}{{"Unmarshal", gojson.Unmarshal}, {"Decoder", streamUnmarshal(false)}, {"Decoder/1-byte reader", streamUnmarshal(true)}}
+	for _, k := range intKinds {
+		for _, l := range lits {
+			want := decodeObs(k, stdjson.Unmarshal, []byte(l))
+			o.hist("dense_verdict", k.name+" "+want[:5])
+			for _, m := range modes {
+				got := decodeObs(k, m.f, []byte(l))
+				o.count("dense_decode_cases", 1)
+				if got != want {
+					o.violation("C16", "integer literal near a width boundary decoded differently from encoding/json",
+						map[string]string{"kind": k.name, "mode": m.name, "literal": l, "impl": got, "oracle": want})
+				}
+			}
+		}
+	}
+}
+
+// c16StreamSequences: many literals in one stream, read value by value through one
+// Decoder (the window is refilled and grown under way, and only some of the scalar
+// decoders drop the consumed part of it), white space of 500..530 bytes in front of a
+// literal so that it lies across the first window's end, and the separators a number
+// can be followed by.
+func c16StreamSequences(o *Out, k intKind) {
+	vals := c16Boundary(k)
+	rounds := 6
+	if o.tier == "thorough" {
+		rounds = 200
+	}
+	for r := 0; r < rounds; r++ {
+		n := 50 + o.rng.Intn(400)
+		var doc bytes.Buffer
+		var want []string
+		for i := 0; i < n; i++ {
+			v := reflect.New(k.typ).Elem()
+			p := vals[o.rng.Intn(len(vals))]
+			if o.rng.Intn(2) == 0 {
+				p = o.rng.Uint64() >> uint(o.rng.Intn(64))
+			}
+			setPattern(k, v, p)
+			want = append(want, oracleText(k, v))
+			doc.WriteString(oracleText(k, v))
+			doc.WriteString([]string{" ", "\n", "\t", "\r\n", "  "}[o.rng.Intn(5)])
+		}
+		for _, one := range []bool{false, true} {
+			var rd io.Reader = bytes.NewReader(doc.Bytes())
+			if one {
+				rd = iotest.OneByteReader(rd)
+			}
+			dec := gojson.NewDecoder(rd)
+			bad := ""
+			for i := 0; i <= n && bad == ""; i++ {
+				pv := reflect.New(k.typ)
+				err := safeCall(func() error { return dec.Decode(pv.Interface()) })
+				switch {
+				case i == n && err != io.EOF:
+					bad = fmt.Sprintf("after the last value: err=%v", err)
+				case i < n && err != nil:
+					bad = fmt.Sprintf("value %d (%s): err=%v", i, want[i], err)
+				case i < n && oracleText(k, pv.Elem()) != want[i]:
+					bad = fmt.Sprintf("value %d: got %s want %s", i, oracleText(k, pv.Elem()), want[i])
+				}
+			}
+			o.count("stream_sequence_values", int64(n))
+			if bad != "" {
+				o.violation("C16", "a sequence of integer literals read through one Decoder is not the sequence written",
+					map[string]string{"kind": k.name, "onebyte": fmt.Sprint(one), "where": bad, "doc": clipC16(doc.String())})
+			}
+		}
+	}
+	// a literal across the end of the first window
+	for pad := 500; pad <= 530; pad++ {
+		for _, p := range []uint64{vals[pad%len(vals)], vals[(pad*7+3)%len(vals)]} {
+			v := reflect.New(k.typ).Elem()
+			setPattern(k, v, p)
+			lit := oracleText(k, v)
+			for _, tail := range []string{"", " ", "\n"} {
+				doc := strings.Repeat(" ", pad) + lit + tail
+				want := decodeObs(k, stdjson.Unmarshal, []byte(doc))
+				for _, one := range []bool{false, true} {
+					got := decodeObs(k, streamUnmarshal(one), []byte(doc))
+					o.count("stream_window_cases", 1)
+					if got != want {
+						o.violation("C16", "integer literal across the end of the stream window decoded differently",
+							map[string]string{"kind": k.name, "leading_spaces": strconv.Itoa(pad), "literal": lit, "onebyte": fmt.Sprint(one), "impl": got, "oracle": want})
+					}
+				}
+			}
+		}
+	}
+}
+
+func clipC16(s string) string {
+	if len(s) > 300 {
+		return s[:300] + "..."
+	}
+	return s
+}
+
+// c16Exhaustive32: the quantifier's "all 2^32 values of the 32-bit types (thorough
+// tier)": every int32 and uint32 value is printed (against strconv) and its text is
+// decoded again (must give the value back), 4096 values per Marshal/Unmarshal call as
+// elements of a slice (the per-call overhead would otherwise cost most of an hour), in
+// parallel on all CPUs.  The stride can be raised with AUDIT_C16_STRIDE32 (default 1:
+// every value).
+func c16Exhaustive32(o *Out) {
+	stride := uint64(1)
+	if s, err := strconv.ParseUint(os.Getenv("AUDIT_C16_STRIDE32"), 10, 32); err == nil && s > 0 {
+		stride = s
+	}
+	const chunk = 4096
+	workers := runtime.NumCPU()
+	type res struct {
+		n    int64
+		viol []map[string]string
+	}
+	out := make([]res, workers)
+	var wg sync.WaitGroup
+	span := (uint64(1)<<32 + uint64(workers) - 1) / uint64(workers)
+	for w := 0; w < workers; w++ {
+		wg.Add(1)
+		go func(w int) {
+			defer wg.Done()
+			r := &out[w]
+			lo, hi := uint64(w)*span, uint64(w+1)*span
+			if hi > 1<<32 {
+				hi = 1 << 32
+			}
+			lo = (lo + stride - 1) / stride * stride
+			is := make([]int32, 0, chunk)
+			us := make([]uint32, 0, chunk)
+			var itext, utext []byte
+			fail := func(kind, what, detail string) {
+				if len(r.viol) < 5 {
+					r.viol = append(r.viol, map[string]string{"kind": kind, "what_failed": what, "detail": detail})
+				}
+			}
+			flush := func() {
+				if len(is) == 0 {
+					return
+				}
+				itext = append(itext[:0], '[')
+				utext = append(utext[:0], '[')
+				for i := range is {
+					if i > 0 {
+						itext = append(itext, ',')
+						utext = append(utext, ',')
+					}
+					itext = strconv.AppendInt(itext, int64(is[i]), 10)
+					utext = strconv.AppendUint(utext, uint64(us[i]), 10)
+				}
+				itext = append(itext, ']')
+				utext = append(utext, ']')
+				if got, err := gojson.Marshal(is); err != nil || !bytes.Equal(got, itext) {
+					fail("int32", "printing", c16FirstDiff(got, itext)+fmt.Sprint(" err=", err))
+				}
+				if got, err := gojson.Marshal(us); err != nil || !bytes.Equal(got, utext) {
+					fail("uint32", "printing", c16FirstDiff(got, utext)+fmt.Sprint(" err=", err))
+				}
+				var ib []int32
+				if err := gojson.Unmarshal(itext, &ib); err != nil || len(ib) != len(is) {
+					fail("int32", "decoding", fmt.Sprintf("err=%v len=%d first=%d", err, len(ib), is[0]))
+				} else {
+					for i := range is {
+						if ib[i] != is[i] {
+							fail("int32", "decoding", fmt.Sprintf("literal %d decoded to %d", is[i], ib[i]))
+							break
+						}
+					}
+				}
+				var ub []uint32
+				if err := gojson.Unmarshal(utext, &ub); err != nil || len(ub) != len(us) {
+					fail("uint32", "decoding", fmt.Sprintf("err=%v len=%d first=%d", err, len(ub), us[0]))
+				} else {
+					for i := range us {
+						if ub[i] != us[i] {
+							fail("uint32", "decoding", fmt.Sprintf("literal %d decoded to %d", us[i], ub[i]))
+							break
+						}
+					}
+				}
+				r.n += 2 * int64(len(is))
+				is, us = is[:0], us[:0]
+			}
+			for p := lo; p < hi; p += stride {
+				is = append(is, int32(uint32(p)))
+				us = append(us, uint32(p))
+				if len(is) == chunk {
+					flush()
+				}
+			}
+			flush()
+		}(w)
+	}
+	wg.Wait()
+	for _, r := range out {
+		o.count("exhaustive32_values", r.n)
+		for _, v := range r.viol {
+			o.violation("C16", "a 32-bit value is not printed exactly or not read back from its text", v)
+		}
+	}
+	o.Notes = append(o.Notes, fmt.Sprintf("exhaustive 32-bit sweep: stride %d, %d workers", stride, workers))
+}
+
+// c16FirstDiff shows the surroundings of the first byte at which two texts differ
+func c16FirstDiff(got, want []byte) string {
+	i := 0
+	for i < len(got) && i < len(want) && got[i] == want[i] {
+		i++
+	}
+	lo := i - 24
+	if lo < 0 {
+		lo = 0
+	}
+	clip := func(b []byte) string {
+		hi := i + 24
+		if hi > len(b) {
+			hi = len(b)
+		}
+		if lo > hi {
+			return ""
+		}
+		return string(b[lo:hi])
+	}
+	return fmt.Sprintf("at byte %d: impl ...%s... oracle ...%s...", i, clip(got), clip(want))
 }
